@@ -311,7 +311,7 @@ pub fn run(ctx: &Ctx, st: &mut Stats) {
             st.eval(&C::ab(K::Cmp, a, d as i64 * DAY_US), check);
         }
     }
-    let n = ctx.tier.pick(1_000, 2_000_000, 30_000_000);
+    let n = ctx.tier.pick(1_000, 2_000_000, ctx.big(30_000_000, 300_000_000));
     ctx.par(st, "random: pairs for comparisons / differences / interval arithmetic", false, 0, n, |st, _, rng| {
         let a = rng.range_i64(TS_MIN, TS_MAX);
         let day = a.div_euclid(DAY_US);
